@@ -11,6 +11,8 @@ import (
 	"strconv"
 	"strings"
 	"time"
+
+	"golang.org/x/tools/go/ssa"
 )
 
 type knownFinding struct {
@@ -83,6 +85,7 @@ func main() {
 	dump := flag.Bool("dump", false, "dump obligations (debug)")
 	evidence := flag.Bool("evidence", true, "write evidence file")
 	listFuncs := flag.Bool("list", false, "list functions")
+	closure := flag.Bool("closure", true, "also verify (all clauses of) the non-trusted functions under contract that the property's functions call, transitively")
 	uncov := flag.Bool("uncovered", false, "list call sites whose tagged callee precondition no property checks (contract lint), then exit")
 	replayFile := flag.String("replay", "", "replay file written for a VIOLATION line: re-check that obligation on the current tree (and re-run its counterexample)")
 	flag.Parse()
@@ -160,6 +163,67 @@ func main() {
 			names = append(names, n)
 		}
 	}
+	// Call closure: a property's proof uses the contracts of everything its functions call. Those callees
+	// are verified in the same run (all their clauses, whatever property they are tagged with), so that a
+	// change anywhere below a property's functions fails that property's check and not only the check of
+	// the property the callee was written for.
+	viaClosure := map[string]bool{}
+	if *prop != "" && *only == "" && *closure {
+		seen := map[string]bool{}
+		work := append([]string(nil), names...)
+		for _, n := range names {
+			seen[n] = true
+		}
+		for len(work) > 0 {
+			n := work[len(work)-1]
+			work = work[:len(work)-1]
+			fn := eng.funcs[n]
+			if fn == nil {
+				continue
+			}
+			var visit func(f *ssa.Function, depth int)
+			visit = func(f *ssa.Function, depth int) {
+				for _, b := range f.Blocks {
+					for _, in := range b.Instrs {
+						var callee *ssa.Function
+						switch x := in.(type) {
+						case ssa.CallInstruction:
+							if !x.Common().IsInvoke() {
+								switch v := x.Common().Value.(type) {
+								case *ssa.Function:
+									callee = v
+								case *ssa.MakeClosure:
+									callee, _ = v.Fn.(*ssa.Function)
+								}
+							}
+						case *ssa.MakeClosure:
+							callee, _ = x.Fn.(*ssa.Function)
+						}
+						if callee == nil {
+							continue
+						}
+						cn := funcDisplayName(callee)
+						cs := eng.specs[cn]
+						if cs == nil {
+							continue
+						}
+						if cs.Inline && depth < 3 {
+							visit(callee, depth+1) // inlined callees: look through
+							continue
+						}
+						if cs.Trusted || seen[cn] {
+							continue
+						}
+						seen[cn] = true
+						viaClosure[cn] = true
+						names = append(names, cn)
+						work = append(work, cn)
+					}
+				}
+			}
+			visit(fn, 0)
+		}
+	}
 	sort.Strings(names)
 	var all []*Obligation
 	var fcs []*FnCtx
@@ -179,7 +243,7 @@ func main() {
 				}
 				continue
 			}
-			if *prop == "" || *only != "" || hasProp(ob.Props, *prop) {
+			if *prop == "" || *only != "" || hasProp(ob.Props, *prop) || (viaClosure[n] && !hasProp(ob.Props, "local")) {
 				all = append(all, ob)
 			}
 		}
@@ -261,7 +325,9 @@ func report(eng *Engine, prop, tier string, seed int, obs []*Obligation, fcs []*
 	known := readKnownFindings(filepath.Join(verifDir, "known_findings.txt"))
 	isKnown := func(name string) *knownFinding {
 		for i := range known {
-			if known[i].Kind == "finding" && known[i].Obligation == name && (prop == "" || known[i].Property == prop) {
+			// an obligation recorded as a finding is that finding under whichever property's run reaches it
+			// (runs include the call closure of their property)
+			if known[i].Kind == "finding" && known[i].Obligation == name {
 				return &known[i]
 			}
 		}
